@@ -30,6 +30,9 @@ pub struct Table {
     frozen_buffer: Mutex<Buffer>,
     /// LRU that keeps track of when each (table, partition, column) segment was last accessed.
     lru: Lru,
+    /// Columns of partitions that are not persisted yet. They only become evictable
+    /// (`register_pending_lru`) once they can be loaded back from disk.
+    pending_lru: Mutex<Vec<ColumnLocator>>,
 
     // Set of every column name that is present in any partition
     column_names: RwLock<Option<HashSet<String>>>,
@@ -45,6 +48,7 @@ impl Table {
             buffer: Mutex::new(Buffer::default()),
             frozen_buffer: Mutex::new(Buffer::default()),
             lru,
+            pending_lru: Mutex::new(Vec::new()),
             column_names: RwLock::new(if name.starts_with("_meta_columns_") {
                 Some(HashSet::from(["column_name".to_string()]))
             } else if name.starts_with("_meta_tables") {
@@ -257,8 +261,9 @@ impl Table {
             #[cfg(locustdb_verif)]
             crate::verif::event("Batch", || serde_json::json!({"table": self.name, "pid": part_id, "offset": partition_offset, "len": arc_partition.len()}));
         }
+        let mut pending_lru = self.pending_lru.lock().unwrap();
         for (id, column) in keys {
-            self.lru.put(ColumnLocator::new(self.name(), id, &column));
+            pending_lru.push(ColumnLocator::new(self.name(), id, &column));
         }
         Some(arc_partition)
     }
@@ -316,8 +321,17 @@ impl Table {
             crate::verif::event("CompactSwap", || serde_json::json!({"table": self.name, "cid": id, "offset": offset, "len": partition.len(), "old": old_partitions}));
             partitions.insert(id, Arc::new(partition));
         }
+        let mut pending_lru = self.pending_lru.lock().unwrap();
         for (id, column) in keys {
-            self.lru.put(ColumnLocator::new(self.name(), id, &column));
+            pending_lru.push(ColumnLocator::new(self.name(), id, &column));
+        }
+    }
+
+    /// Makes the columns of partitions created by `batch`/`compact` evictable.
+    /// To be called once those partitions have been written to disk and registered in the metastore.
+    pub fn register_pending_lru(&self) {
+        for key in self.pending_lru.lock().unwrap().drain(..) {
+            self.lru.put(key);
         }
     }
 
